@@ -1,11 +1,11 @@
 package an
 
 import (
-	"os"
 	"fmt"
 	"go/constant"
 	"go/token"
 	"go/types"
+	"os"
 	"strings"
 
 	"golang.org/x/tools/go/ssa"
@@ -1244,10 +1244,32 @@ func (x *Evaluator) evalFieldRead(a *ssa.FieldAddr, t types.Type, e *env, c *eva
 		x.fieldMemo[key] = v
 		return v
 	}
-	if isInt(t) && e.site != "" && storesField(a.Parent(), a) {
-		// a counter read inside an inlined allocator (reads and bumps the counter):
-		// distinguish the activations
-		return IntV{Origin: "field:" + name + "@" + e.site}
+	if isInt(t) && storesField(a.Parent(), a) {
+		// a counter read by code that also bumps it: distinguish the reads. Inside an inlined
+		// allocator the activations differ by their call sites; where read and bump are written
+		// out in the method itself, by the number of bumps that precede the read
+		k := 0
+		for _, b := range a.Parent().Blocks {
+			for _, ins := range b.Instrs {
+				s, ok := ins.(*ssa.Store)
+				if !ok {
+					continue
+				}
+				fa, ok := s.Addr.(*ssa.FieldAddr)
+				if !ok || fa.Field != a.Field || !types.Identical(fa.X.Type(), a.X.Type()) {
+					continue
+				}
+				before := (b == a.Block() && instrIndex(s) < instrIndex(a)) || (b != a.Block() && b.Dominates(a.Block()))
+				if before {
+					k++
+				}
+			}
+		}
+		site := e.site
+		if k > 0 || site == "" {
+			site += fmt.Sprintf("/i%d", k)
+		}
+		return IntV{Origin: "field:" + name + "@" + site}
 	}
 	return x.symbolic(t, "field:"+name)
 }
